@@ -1,5 +1,86 @@
-import Toq.Driver.Util
-/-! Driver handlers for C12 (stub; filled in by the owner of this property). -/
+import Toq.Driver.C10
+import Toq.Model.PPTDisc
+/-! Driver front end for C12 (PPT state-discrimination certificate checkers).
+
+Ops (matrices in the `QJson` dyadic encoding, rationals as `[num, den]` or an integer; all matrices are
+`dA·dB × dA·dB`; `sys` = transposed party, `0` = first, `1` = second):
+
+* `c12_ppt_primal {"dA":·,"dB":·,"sys":·,"rho":[mat…],"p":[rat…],"M":[mat…],"LM":[mat…],"LT":[mat…]}`
+* `c12_ppt_dual   {"dA":·,"dB":·,"sys":·,"rho":[mat…],"p":[rat…],"Y":mat,"Q":[mat…],"LQ":[mat…],"LS":[mat…]}`
+* `c12_ptranspose {"dA":·,"dB":·,"sys":·,"X":mat}` → `{"e":0,"num":…}`: not needed by the checkers; returns the
+  model's partial transpose entrywise as rationals `[[re_num,re_den,im_num,im_den]…]` (row-major) so that the harness
+  can compare it with `toqito.channels.partial_transpose` / `picos.partial_transpose` on labelled inputs.
+
+Answer `{"ok":[num,den]}` (the exact objective value returned by the verified checker) or
+`{"reject":"<first failed condition>"}`.  The verdict is always the one of the verified checker of
+`Toq.Model.PPTDisc`; the diagnostic only words a rejection by re-evaluating the same named conditions. -/
+open Lean Toq.Discrim Toq.PPTDisc EMat
+
 namespace Toq.Driver.C12
-def handlers : List (String × Handler) := []
+open Toq.Driver.C10 (firstPsdFail lenWhy answer)
+
+def hPrimal : Handler := fun j => do
+  let dA ← getNat j "dA"
+  let dB ← getNat j "dB"
+  let sys ← getNat j "sys"
+  let rho ← getEMatList j "rho" (dA * dB) (dA * dB)
+  let p ← getRatList j "p"
+  let M ← getEMatList j "M" (dA * dB) (dA * dB)
+  let LM ← getEMatList j "LM" (dA * dB) (dA * dB)
+  let LT ← getEMatList j "LT" (dA * dB) (dA * dB)
+  let ens : Ensemble (dA * dB) := ⟨rho, p⟩
+  let k := ens.size
+  return answer (checkPPTPrimal sys ens M LM LT) fun _ =>
+    match lenWhy k [("p", p.length), ("M", M.length), ("LM", LM.length), ("LT", LT.length)] with
+    | some s => s
+    | none =>
+      match firstPsdFail k (fun i => matAt M i) (fun i => matAt LM i) with
+      | some (i, s) => s!"M[{i}]_{s}"
+      | none =>
+        if !povmSumOk k (fun i => matAt M i) then "sum_M_not_identity"
+        else
+          match firstPsdFail k (fun i => pT sys (matAt M i)) (fun i => matAt LT i) with
+          | some (i, s) => s!"pT_M[{i}]_{s}"
+          | none => "rejected"
+
+def hDual : Handler := fun j => do
+  let dA ← getNat j "dA"
+  let dB ← getNat j "dB"
+  let sys ← getNat j "sys"
+  let rho ← getEMatList j "rho" (dA * dB) (dA * dB)
+  let p ← getRatList j "p"
+  let Y ← getEMat j "Y" (dA * dB) (dA * dB)
+  let Q ← getEMatList j "Q" (dA * dB) (dA * dB)
+  let LQ ← getEMatList j "LQ" (dA * dB) (dA * dB)
+  let LS ← getEMatList j "LS" (dA * dB) (dA * dB)
+  let ens : Ensemble (dA * dB) := ⟨rho, p⟩
+  let k := ens.size
+  return answer (checkPPTDual sys ens Y Q LQ LS) fun _ =>
+    match lenWhy k [("p", p.length), ("Q", Q.length), ("LQ", LQ.length), ("LS", LS.length)] with
+    | some s => s
+    | none =>
+      if !Y.isHermitian then "Y_not_hermitian"
+      else
+        match firstPsdFail k (fun i => matAt Q i) (fun i => matAt LQ i) with
+        | some (i, s) => s!"Q[{i}]_{s}"
+        | none =>
+          match firstPsdFail k (fun i => Y - smul (ens.prob i) (ens.state i) - pT sys (matAt Q i))
+              (fun i => matAt LS i) with
+          | some (i, s) => s!"slack[{i}]_{s}"
+          | none => "rejected"
+
+def qiJson (a : QI) : Json :=
+  Json.arr #[Json.num a.re.num, Json.num (a.re.den : Nat), Json.num a.im.num, Json.num (a.im.den : Nat)]
+
+def hPTranspose : Handler := fun j => do
+  let dA ← getNat j "dA"
+  let dB ← getNat j "dB"
+  let sys ← getNat j "sys"
+  let X ← getEMat j "X" (dA * dB) (dA * dB)
+  let Z := pT sys X
+  return Json.mkObj [("rows", Json.arr (Z.toRows.map fun r => Json.arr (r.map qiJson)))]
+
+def handlers : List (String × Handler) :=
+  [("c12_ppt_primal", hPrimal), ("c12_ppt_dual", hDual), ("c12_ptranspose", hPTranspose)]
+
 end Toq.Driver.C12
